@@ -74,6 +74,9 @@ def extra_stored_files(tier, seed, prop):
         if ver == 'SSE':
             shapes[0]['kind'] = 'dynamic'
             shapes[0].pop('eyedata', None)
+        if ver in ('FO4', 'FO76'):
+            shapes[-1].pop('kind', None)
+            shapes[-1]['segments'] = {'subs': [2, 0, 1, 3][:rng.range(2, 4)], 'ssf': 'Meshes\\v.ssf' if rng.chance(0.5) else ''}   # a segmentation with sub-segments
         out.append({'store_sorted': k % 2 == 0, 'builder': {'version': ver, 'salt': rng.below(1 << 30), 'nodes': rng.below(3), 'shapes': shapes}})
     # strip-based geometry (NiTriStrips, strip partitions): counts and lengths of several strips precede the points
     nstrips = 2 if tier == 'quick' else 30
